@@ -61,7 +61,7 @@ func (p *Prog) JS() string {
 		switch op.Kind {
 		case "spin":
 			// takes a while and has no effect (for crowds of executions that overlap in time)
-			sb.WriteString("for (var zi = 0; zi < 100000; zi++) {}\n")
+			sb.WriteString("for (var zi = 0; zi < 600000; zi++) {}\n")
 		case "emit":
 			sb.WriteString("_.out(" + jsText(op.J) + ");\n")
 		case "emitb":
